@@ -69,6 +69,26 @@ def transform(ck, prog):
         if not some_dst:
             some_dst = [t["otherwise"]]
         lookups.append((i, none_dst[0] if none_dst else None, some_dst[0], term))
+    # `lookup.ok_or(..)?` / `lookup.ok_or_else(|| ..)?`: None becomes Err and is propagated by `?`
+    for bb, t in b.calls():
+        f = t.get("f")
+        if not (f and f["path"].startswith("std::option::Option") and f["path"].endswith(("::ok_or", "::ok_or_else")) and t["args"]):
+            continue
+        v = res.operand(t["args"][0])
+        if not closure_calls(prog, v, LOOKUPS) or t["d"]["pr"]:
+            continue
+        dl = t["d"]["l"]
+        for bb2, t2 in b.calls():
+            f2 = t2.get("f")
+            if f2 and f2["path"] == "std::ops::Try::branch" and t2["args"] and t2["args"][0]["k"] in ("move", "copy") and \
+                    t2["args"][0]["p"]["l"] == dl and not t2["args"][0]["p"]["pr"]:
+                nb = t2["t"]
+                tt = b.blocks[nb]["term"]
+                if tt["k"] == "switch":
+                    brk = [d for val, d in tt["targets"] if val == "1"]
+                    cont = [d for val, d in tt["targets"] if val == "0"]
+                    if brk or cont:
+                        lookups.append((nb, brk[0] if brk else tt["otherwise"], cont[0] if cont else tt["otherwise"], ("discr", v)))
     inst = "transform: unseen category (lookup None) -> Err"
     if not lookups:
         ck.violation(rule, inst, b.path, f"{b.loc[0]}:{b.loc[1]}", expected="a discriminant test on the result of a CategoryMapper lookup",
